@@ -1,5 +1,57 @@
-"""C06 tier 2: every dumper output (both back-ends) is read identically by both loaders."""
+"""C06 tier 2: every dumper output (both back-ends, all option sets within the bound) is read identically by both loaders."""
+import itertools
+import yaml
+from .. import universe as U
+
+DUMPERS = (('py', yaml.SafeDumper), ('c', yaml.CSafeDumper), ('pyfull', yaml.Dumper), ('cfull', yaml.CDumper))
+
+
+def values(tier):
+    q = tier == 'quick'
+    for s in U.strings(U.STR_SIGMA, 1 if q else 2):
+        yield ('str', s), (lambda s=s: s), 'str'
+        yield ('strc', s), (lambda s=s: dict(U.place_string(s))['composite']), 'str'
+    for s in U.strings(U.STR_CORE, 2, 2) if q else U.strings(U.STR_CORE, 3, 3):
+        yield ('str', s), (lambda s=s: s), 'str'
+    for s in U.lookalikes()[::4 if q else 1]:
+        yield ('look', s), (lambda s=s: [s, {s: s}]), 'str'
+    for s in U.fold_words(3 if q else 4):
+        yield ('fold', s), (lambda s=s: s), 'fold'
+    for name, mk in U.containers():
+        yield ('cont', name), mk, 'cont'
+    for i, v in enumerate(U.LEAVES):
+        yield ('leaf', i), (lambda v=v: [v, {'k': v}]), 'cont'
+    yield ('tuple',), (lambda: {'t': (1, 2), 'c': 1 + 2j}), 'full'
+
+
+def opts_for(cls, tier):
+    from .c02 import STR_OPTS
+    if cls == 'str':
+        return STR_OPTS
+    if cls == 'fold':
+        return [{'default_style': '>', 'width': w} for w in (3, 5, 10)] + [{'width': 5}, {'default_style': '|'}, {'default_style': "'", 'width': 3}]
+    return list(U.option_sets(1 if tier == 'quick' else 2))
 
 
 def run(job, T, compare_text):
-    T.count('dumpers_tier_pending')
+    _, k, np_, tier = job
+    seen = set()
+    for i, (name, mk, cls) in enumerate(values(tier)):
+        if i % np_ != k:
+            continue
+        for o in opts_for(cls, tier):
+            for dn, Dm in DUMPERS:
+                if cls != 'full' and dn.endswith('full') and cls != 'cont':
+                    continue
+                try:
+                    out = yaml.dump(mk(), Dumper=Dm, **o)
+                except Exception as e:
+                    T.count('dump_raised')     # C02 / C05 territory
+                    continue
+                if out in seen:
+                    continue
+                seen.add(out)
+                c = {'input': out, 'from': [dn, list(name) if isinstance(name, tuple) else name, o]}
+                if T.trace: T.begin(c)
+                compare_text(T, 'dumper-output', c, out, deep=True)
+        T.sample('dumper-output', c)
